@@ -149,7 +149,7 @@ def execute(sc, ctx):
             present = e in model
             st, v = ctx.call(src, ds.add, e, label="add")
             if st != "ok":
-                ctx.violate("C20.raised", f"add raised {describe_exc(v)} at {after}")
+                ctx.violate("C20.raised", f"add: {st}: {describe_exc(v)} at {after}")
                 return
             if present:
                 ctx.probe("add_present")
@@ -214,7 +214,7 @@ def execute(sc, ctx):
             ctx.check("C20.draw")
             st, v = ctx.call(src, ds.draw, label="draw")
             if st != "ok":
-                ctx.violate("C20.raised", f"draw raised {describe_exc(v)} at {after}")
+                ctx.violate("C20.raised", f"draw: {st}: {describe_exc(v)} at {after}")
                 return
             if v not in model:
                 ctx.violate("C20.draw", f"draw returned {v!r}, not a current member, at {after}")
@@ -231,7 +231,7 @@ def execute(sc, ctx):
             for _ in range(need):
                 st, v = ctx.call(usrc, ds.draw, label="draw")
                 if st != "ok":
-                    ctx.violate("C20.raised", f"draw raised {describe_exc(v)} at {after}")
+                    ctx.violate("C20.raised", f"draw: {st}: {describe_exc(v)} at {after}")
                     return
                 if v not in model:
                     ctx.violate("C20.draw", f"draw returned {v!r}, not a current member, at {after}")
@@ -255,7 +255,7 @@ def execute(sc, ctx):
             probe.requests = []
             st, v = ctx.call(probe, ds.draw, label="draw[enumerated]")
             if st != "ok":
-                ctx.violate("C20.raised", f"draw raised {describe_exc(v)} at {after}")
+                ctx.violate("C20.raised", f"draw: {st}: {describe_exc(v)} at {after}")
                 return
             if len(probe.requests) != 1 or probe.requests[0][0] != "i" or probe.requests[0][1] > 4 * n + 16:
                 enumerable = False
@@ -266,7 +266,7 @@ def execute(sc, ctx):
                     one.requests = []
                     st, v = ctx.call(one, ds.draw, label="draw[enumerated]")
                     if st != "ok":
-                        ctx.violate("C20.raised", f"draw raised {describe_exc(v)} at {after}")
+                        ctx.violate("C20.raised", f"draw: {st}: {describe_exc(v)} at {after}")
                         return
                     if one.requests != [("i", m)]:
                         enumerable = False
